@@ -240,6 +240,28 @@ pub fn scripts(tier: Tier) -> Vec<Script> {
             }
         }
     }
+    // backlogs on several members in one wait, the newer member ready first: a batch of many
+    // results in which results of one member are not adjacent to a fixed order of members
+    let crosses: Vec<(u32, u32)> = if tier.is_quick() { vec![(15, 15), (40, 10), (10, 40)] } else { vec![(11, 10), (15, 15), (25, 25), (40, 10), (10, 40), (64, 64)] };
+    for &(a, b) in &crosses {
+        for three in [false, true] {
+            for dropped in [false, true] {
+                let mut acts = vec![Act::Add(0), Act::Add(1)];
+                if three {
+                    acts.push(Act::Add(2));
+                    acts.push(Act::Burst(2, a));
+                }
+                acts.push(Act::Burst(1, a));
+                acts.push(Act::Burst(0, b));
+                acts.push(Act::Burst(1, 3));
+                if dropped {
+                    acts.push(Act::DropSender(1));
+                }
+                acts.push(Act::Drain);
+                v.push(Script { label: format!("cross backlog {}+{} three={} dropped={}", a, b, three, dropped), members: 3, acts });
+            }
+        }
+    }
     // ids after a closure: a member added later must not share an id with one still in the set
     for first_closed in [0usize, 1] {
         let other = 1 - first_closed;
@@ -361,6 +383,7 @@ pub fn scenarios(tier: Tier) -> Vec<Scenario> {
         let name = format!("{:?}", r);
         let mut cfg = sched_cfg();
         cfg.eintr_budget = r.eintr;
+        cfg.yield_alts = cfg!(feature = "inproc");
         v.push(Scenario::new(name, cfg, bound, move || race_body(&r)));
     };
     if tier.is_quick() {
@@ -386,10 +409,13 @@ pub fn scenarios(tier: Tier) -> Vec<Scenario> {
     v
 }
 
-pub fn run(tier: Tier, _part: bool) -> i32 {
-    let mut rep = Report::new("C06", tier, "model_checking");
+pub fn run(tier: Tier, part_only: bool) -> i32 {
+    super::run_with_inproc("C06", tier, part_only, "model_checking", &run_all)
+}
+
+fn run_all(rep: &mut Report, tier: Tier) {
     let scs = scenarios(tier);
-    let tot = e1::run_scenarios(&mut rep, &scs, &e1::strict_judge, if tier.is_quick() { 30.0 } else { 3000.0 });
+    let tot = e1::run_scenarios(rep, &scs, &e1::strict_judge, if tier.is_quick() { 30.0 } else { 3000.0 });
     let ss = scripts(tier);
     let cfg = Cfg { sched: true, fake_sndbuf: Some(4608), ..Default::default() };
     let mut n = 0u64;
@@ -413,12 +439,12 @@ pub fn run(tier: Tier, _part: bool) -> i32 {
     rep.set("evaluations", json!(tot.execs + n));
     rep.set("distinct_nontrivial", json!(tot.with_switch + distinct.len() as u64));
     rep.set("deviation_bound", json!(tot.max_bound));
-    rep.set("rule", json!("E1: one evaluation = one schedule (<= bound deviations, EINTR answers to epoll_wait among them) of sender tasks racing the selecting task, 2-3 members, optional member added after the first select; E2: scripted single-task histories (1..12 / ..64 ready members with traffic queued before or after add, all per-member size sequences up to length 2/3 for two members, bursts of 63..150 messages between two waits, re-adding after closures), where select blocking while the ideal set has a pending event is an exact deadlock"));
+    rep.set("rule", json!("E1: one evaluation = one schedule (<= bound deviations, EINTR answers to epoll_wait among them) of sender tasks racing the selecting task, 2-3 members, optional member added after the first select; E2: scripted single-task histories (1..12 / ..64 ready members with traffic queued before or after add, all per-member size sequences up to length 2/3 for two members, bursts of 63..150 messages between two waits, backlogs of 10..64 messages on two or three members at once with the newer member ready first, re-adding after closures), where select blocking while the ideal set has a pending event is an exact deadlock"));
     rep.assume("batching of select results is normalised away: per-member sequences are compared");
-    rep.finish()
 }
 
 pub fn replay(tier: Tier, v: &Value) -> i32 {
+    let v = if v.get("variant").is_some() { &v["case"] } else { v };
     if v["engine"] == "E2-script" {
         let Ok(c) = serde_json::from_value::<Script>(v["case"].clone()) else { return 2 };
         let cfg = Cfg { sched: true, fake_sndbuf: Some(4608), ..Default::default() };
